@@ -6,6 +6,7 @@ INVARIANT RoundTrip
 INVARIANT CodecRoundTrip
 INVARIANT JsonRoundTrip
 INVARIANT MediaTypeSane
+INVARIANT MultipartRoundTrip
 INVARIANT HistSane
 INVARIANT CoerceJsonLike
 INVARIANT Export
